@@ -136,3 +136,47 @@ Proof.
   rewrite sweep_cons2. rewrite !map_cons, sweep_cons2. rewrite <- map_cons, IH.
   unfold srow. cbn [fst snd]. destruct (sel (acc + snd r)); ring.
 Qed.
+
+(* ---------- more shared lemmas ---------- *)
+Lemma leb_scale k a b : 0 < k -> (k * a <=? k * b) = (a <=? b).
+Proof. intro Hk. destruct (Z.leb_spec a b); destruct (Z.leb_spec (k * a) (k * b)); try reflexivity; nia. Qed.
+
+Lemma minZ_scale k d l : 0 <= k -> minZ (k * d) (map (Z.mul k) l) = k * minZ d l.
+Proof.
+  intro Hk. revert d. induction l as [|x r IH]; intro d; cbn [map minZ]; [reflexivity|].
+  rewrite IH, min_scale by exact Hk. reflexivity.
+Qed.
+
+Lemma maxZ_scale k d l : 0 <= k -> maxZ (k * d) (map (Z.mul k) l) = k * maxZ d l.
+Proof.
+  intro Hk. revert d. induction l as [|x r IH]; intro d; cbn [map maxZ]; [reflexivity|].
+  rewrite IH, max_scale by exact Hk. reflexivity.
+Qed.
+
+Lemma minZ0_scale k l : 0 <= k -> minZ 0 (map (Z.mul k) l) = k * minZ 0 l.
+Proof. intro Hk. rewrite <- (minZ_scale k 0 l Hk). rewrite Z.mul_0_r. reflexivity. Qed.
+
+Lemma maxZ0_scale k l : 0 <= k -> maxZ 0 (map (Z.mul k) l) = k * maxZ 0 l.
+Proof. intro Hk. rewrite <- (maxZ_scale k 0 l Hk). rewrite Z.mul_0_r. reflexivity. Qed.
+
+Lemma map_ts_scale k l : map ts (scale_evs k l) = map (Z.mul k) (map ts l).
+Proof. unfold scale_evs. rewrite !map_map. reflexivity. Qed.
+
+Lemma map_eend_scale k l : map eend (scale_evs k l) = map (Z.mul k) (map eend l).
+Proof. unfold scale_evs. rewrite !map_map. apply map_ext. intro e. apply eend_scale. Qed.
+
+Lemma firstn_map_f {A B} (f : A -> B) n l : firstn n (map f l) = map f (firstn n l).
+Proof. revert l. induction n as [|n IH]; intro l; [reflexivity|]. destruct l as [|x r]; [reflexivity|]. cbn [map firstn]. rewrite IH. reflexivity. Qed.
+
+Lemma skipn_map_f {A B} (f : A -> B) n l : skipn n (map f l) = map f (skipn n l).
+Proof. revert l. induction n as [|n IH]; intro l; [reflexivity|]. destruct l as [|x r]; [reflexivity|]. cbn [map skipn]. apply IH. Qed.
+
+Lemma forallb_map_f {A B} (f : A -> B) (p : B -> bool) (l : list A) : forallb p (map f l) = forallb (fun x => p (f x)) l.
+Proof. induction l as [|x r IH]; cbn [map forallb]; [reflexivity|]. rewrite IH. reflexivity. Qed.
+
+Lemma existsb_map_f {A B} (f : A -> B) (p : B -> bool) (l : list A) : existsb p (map f l) = existsb (fun x => p (f x)) l.
+Proof. induction l as [|x r IH]; cbn [map existsb]; [reflexivity|]. rewrite IH. reflexivity. Qed.
+
+Lemma existsb_ext_eq {A} (p q : A -> bool) (l : list A) : (forall x, p x = q x) -> existsb p l = existsb q l.
+Proof. intro H. induction l as [|x r IH]; cbn [existsb]; [reflexivity|]. rewrite H, IH. reflexivity. Qed.
+
